@@ -559,3 +559,8 @@ func SortedUUIDs(m map[string]ref.Row) []string {
 	sort.Strings(out)
 	return out
 }
+
+// OvsRow encodes a (partial) reference row of a table as a wire row.
+func (m *Model) OvsRow(table string, r ref.Row) ovsdb.Row {
+	return m.ovsRow(m.S.Table(table), r)
+}
